@@ -129,3 +129,59 @@ let () =
       let m = match V.apply_sanitizer name v with None -> "err\t-" | Some o -> "ok\t" ^ hex_of_bytes o in
       let impl = if f.(4) = "missing" then "err\t-" else f.(4) ^ "\t" ^ f.(5) in
       if m = impl then ok id (if f.(4) = "ok" then "+ok" else "err") else mismatch id m)
+
+(* ---- the template text as static pieces and actions (shared by the finding classifiers of C01 / C02) *)
+type spiece = SText of string | SAct
+let split_pieces (t : string) : spiece list =
+  let n = String.length t in
+  let rec go i start acc =
+    if i + 1 < n && t.[i] = '{' && t.[i + 1] = '{' then begin
+      let acc = if i > start then SText (String.sub t start (i - start)) :: acc else acc in
+      let rec close j inq =
+        if j >= n then n
+        else if inq then (if t.[j] = '\\' then close (j + 2) true else if t.[j] = '"' then close (j + 1) false else close (j + 1) true)
+        else if t.[j] = '"' then close (j + 1) true
+        else if j + 1 < n && t.[j] = '}' && t.[j + 1] = '}' then j
+        else close (j + 1) false in
+      let j = close (i + 2) false in
+      go (j + 2) (j + 2) (SAct :: acc)
+    end
+    else if i >= n then List.rev (if n > start then SText (String.sub t start (n - start)) :: acc else acc)
+    else go (i + 1) start acc in
+  go 0 0 []
+
+(* D48: an attribute name split over several text nodes: inside a tag, after the tag name and outside
+   quoted values, static text that ends in a name character is followed (after actions / control
+   structures only) by static text that starts with a name character or a solidus.  The engine keeps
+   the first part as the attribute name; the tokenizer reads one longer name (srcdoc for src + doc) or
+   a new attribute after the solidus (data-x/onclick) *)
+let split_name_finding (text : string) : bool =
+  let name_char c = (c >= 'a' && c <= 'z') || (c >= 'A' && c <= 'Z') || (c >= '0' && c <= '9') || c = '-' || c = '_' || c = ':' || c = '.' in
+  let ps = split_pieces text in
+  (* in_tag_name_done acc: the static text so far ends inside a tag, after white space that follows the
+     tag name, outside quotes *)
+  let in_attr_area (acc : string) : bool =
+    match String.rindex_opt acc '<' with
+    | None -> false
+    | Some i ->
+      let tail = String.sub acc i (String.length acc - i) in
+      (not (String.contains tail '>')) &&
+      (String.contains tail ' ' || String.contains tail '\t' || String.contains tail '\n' || String.contains tail '/') &&
+      (let q = ref 0 in String.iter (fun c -> if c = '"' || c = '\'' then incr q) tail; !q mod 2 = 0) in
+  let rec go acc = function
+    | SText a :: rest ->
+      let acc' = acc ^ a in
+      let n = String.length a in
+      if n > 0 && name_char a.[n - 1] && in_attr_area acc' then
+        (let rec skip = function SAct :: r -> skip r | r -> r in
+         match rest with
+         | SAct :: _ ->
+           (match skip rest with
+            | SText b :: _ when String.length b > 0 && (name_char b.[0] || b.[0] = '/') -> true
+            | _ -> go acc' rest)
+         | _ -> go acc' rest)
+      else go acc' rest
+    | SAct :: rest -> go acc rest
+    | [] -> false in
+  go "" ps
+
